@@ -3,93 +3,11 @@
 //!   corgi-verif replay <ID> <file> [--root DIR]
 //! exit 0: property held on everything explored; 1: violation (VIOLATION line); 2: inconclusive / internal.
 
-mod c01;
-mod c02;
-mod c03;
-mod histcase;
-mod interp;
-mod c04;
-mod c05;
-mod c06;
-mod c07;
-mod c08;
-mod c09;
-mod c10;
-mod c11;
-mod c12;
-mod c13;
-mod c14;
-mod c15;
-mod layers;
-mod c16;
-mod c17;
-mod c18;
-mod c19;
-mod gens;
-mod cmp;
-mod exec;
-mod known;
-mod opcase;
-mod runner;
-mod vals;
-
-use runner::*;
+use checks::runner::*;
+use checks::{dispatch_for, known, run_check};
 use std::sync::atomic::{AtomicU64, Ordering};
 use std::sync::Arc;
 use std::time::Instant;
-
-fn dispatch_for(id: &str) -> Option<fn(&str, &serde_json::Value) -> Option<Outcome>> {
-    Some(match id {
-        "C04" => c04::dispatch,
-        "C19" => c19::dispatch,
-        "C14" => c14::dispatch,
-        "C15" => c15::dispatch,
-        "C08" => c08::dispatch,
-        "C09" => c09::dispatch,
-        "C18" => c18::dispatch,
-        "C10" => c10::dispatch,
-        "C11" => c11::dispatch,
-        "C12" => c12::dispatch,
-        "C17" => c17::dispatch,
-        "C13" => c13::dispatch,
-        "C16" => c16::dispatch,
-        "C01" => c01::dispatch,
-        "C03" => c03::dispatch,
-        "C05" => c05::dispatch,
-        "C06" => c06::dispatch,
-        "C07" => c07::dispatch,
-        "C02" => c02::dispatch,
-        _ => return None,
-    })
-}
-
-fn run_check(ctx: &Ctx) -> i32 {
-    match ctx.property.as_str() {
-        "C04" => c04::run(ctx),
-        "C19" => c19::run(ctx),
-        "C14" => c14::run(ctx),
-        "C15" => c15::run(ctx),
-        "C08" => c08::run(ctx),
-        "C09" => c09::run(ctx),
-        "C18" => c18::run(ctx),
-        "C10" => c10::run(ctx),
-        "C11" => c11::run(ctx),
-        "C12" => c12::run(ctx),
-        "C17" => c17::run(ctx),
-        "C13" => c13::run(ctx),
-        "C16" => c16::run(ctx),
-        "C01" => c01::run(ctx),
-        "C03" => c03::run(ctx),
-        "C05" => c05::run(ctx),
-        "C06" => c06::run(ctx),
-        "C07" => c07::run(ctx),
-        "C02" => c02::run(ctx),
-        other => {
-            eprintln!("unknown property {}", other);
-            2
-        }
-    }
-}
 
 fn main() {
     let args: Vec<String> = std::env::args().collect();
